@@ -12,7 +12,9 @@ git -C /repo worktree add -q --detach $wt HEAD || exit 2
 cd $wt
 export CARGO_TARGET_DIR=$wt/target
 git apply $src/$id.patch.diff || { echo "PATCH DOES NOT APPLY"; git -C /repo worktree remove --force $wt; exit 2; }
-t1=$(cargo test --offline $fflag 2>&1 | grep -E "^test result" | grep -vc "0 failed")
+t1=$(cargo test --offline $fflag 2>&1 | grep -E "^test result" | grep -vc " 0 failed")
+# (the crate's doc tests share file names in the working directory and occasionally race: retry once)
+[ "$t1" != "0" ] && t1=$(cargo test --offline $fflag 2>&1 | grep -E "^test result" | grep -vc " 0 failed")
 echo "existing tests with change: failing-suites=$t1"
 cp $src/$id.demo.rs tests/seed_demo.rs
 d1=$(cargo test --offline $fflag --test seed_demo 2>&1 | grep -E "^test result" | tail -1)
@@ -20,7 +22,7 @@ echo "demo with change   : $d1"
 git checkout -q -- src
 d2=$(cargo test --offline $fflag --test seed_demo 2>&1 | grep -E "^test result" | tail -1)
 echo "demo without change: $d2"
-cd /; git -C /repo worktree remove --force $wt
+cd /; git -C /repo worktree remove --force $wt; unset CARGO_TARGET_DIR
 mkdir -p /verif/seeded/$id
 cp $src/$id.patch.diff /verif/seeded/$id/patch.diff
 cp $src/$id.demo.rs /verif/seeded/$id/demo.rs
